@@ -5,6 +5,7 @@
 set -u
 wt="$1"; diff="$2"; shift 2
 git -C "$wt" checkout -q -- . || exit 2
+git -C "$wt" checkout -q --detach "$(git -C /repo rev-parse HEAD)" || exit 2   # the mutant goes on top of /repo's current HEAD
 git -C "$wt" apply "$diff" || { echo "APPLY-FAILED $diff"; exit 3; }
 scratch=$(mktemp -d /tmp/vscratch.XXXXXX)
 cd /verif
